@@ -143,7 +143,7 @@ type GoFile struct {
 // Go generator: a drawn specification, rendered deterministically
 
 type typeSpec struct {
-	Kind int // 0 ident, 1 pointer, 2 slice, 3 selector, 4 func
+	Kind int // 0 ident, 1 pointer, 2 slice, 3 selector, 4 func, 5 interface{}
 	Base int
 	Qual bool // pointer/slice of a selector type
 }
@@ -166,11 +166,29 @@ var (
 		{Path: "time", Alias: "."}, {Path: "embed", Alias: "_"}, {Path: "github.com/acme/widget/pkg/core"}, {Path: "example.org/lib/v2", Alias: "lib"},
 		{Path: "github.com/modernizing/coca/pkg/domain/core_domain"}, {Path: "example.org/proj/internal/util"}, {Path: "strings"},
 		// paths that share their last element with another import of the pool
-		{Path: "text/template"}, {Path: "html/template", Alias: "htmpl"}, {Path: "example.org/proj/core", Alias: "pcore"}, {Path: "example.org/other/v2", Alias: "other"}}
+		{Path: "text/template"}, {Path: "html/template", Alias: "htmpl"}, {Path: "example.org/proj/core", Alias: "pcore"}, {Path: "example.org/other/v2", Alias: "other"},
+		// second round: a path that another entry of the pool imports under another name
+		{Path: "fmt", Alias: "format"}, {Path: "net/http", Alias: "web"}, {Path: "example.org/proj/core", Alias: "core2"}}
+)
+
+// pools of the second round
+var (
+	goAltFieldNames = []string{"größe", "_", "x", "Ünicode", "a_very_long_field_name_" + strings.Repeat("y", 90), "default_", "func_", "Type"}
+	goAltFuncNames  = []string{"Größe", "do_it", "M", "x", "Long" + strings.Repeat("Name", 40), "Struct", "method", "Default", "interface_", "Test_π"}
+	goRecvNames     = []string{"r", "s", "this", "self", "recv", "_", "fmtx", "ß"}
+	goAltDirs       = []string{"cmd/tool-x/", "api.v2/", "vendor/nats.go/", "pkg/x_test/", "Internal/Ünï/"}
+	goAltReturns    = []string{"return n + 1, nil", "return &x, err", "return []int{1}, nil", "return -1", "return (x)", "return x.(error)"}
+	// argument expressions of the kinds the first round never wrote
+	goAltArgs = []string{"a + 1", "-1", "&x", "[]int{1, 2}", "arr[0]", "(x)", "x.(error)", "\"type Fake struct{}; func (f Fake) M() { fake.Call() }\"", "'c'", "*p",
+		"m[\"k\"]", "x.y.z", "f(g(1))", "fmt.Sprintf(\"%d\", n.v)", "Point{X: 1}", "!ok", "a.b(c.d)", "`raw\\n`", "1 << 3", "x[1:2]"}
 )
 
 func drawType(t *rapid.T) typeSpec {
-	return typeSpec{Kind: rapid.IntRange(0, 4).Draw(t, "typeKind"), Base: rapid.IntRange(0, 7).Draw(t, "typeBase"), Qual: rapid.Bool().Draw(t, "typeQualified")}
+	ts := typeSpec{Kind: rapid.IntRange(0, 4).Draw(t, "typeKind"), Base: rapid.IntRange(0, 7).Draw(t, "typeBase"), Qual: rapid.Bool().Draw(t, "typeQualified")}
+	if rapid.IntRange(0, 11).Draw(t, "emptyInterfaceType") == 11 {
+		ts.Kind = 5
+	}
+	return ts
 }
 
 // renderType gives the Go text and the model's reading of it (TypeType, TypeValue), as the
@@ -196,6 +214,9 @@ func renderType(ts typeSpec, structNames []string) (text, typeType, typeValue st
 		return "[]" + base, "ArrayType", base
 	case 3:
 		return sel, "", sel
+	case 5:
+		// pinned by testdata/regression/coll_stack.json
+		return "interface{}", "interface{}", "interface{}"
 	}
 	return goFuncTypes[ts.Base%len(goFuncTypes)], "Function", "func"
 }
@@ -206,10 +227,15 @@ type fieldSpec struct {
 	Group bool // declared together with the previous field: "a, b T"
 	Tag   bool
 	Embed bool // struct fields only: an embedded field (no name); identifier, pointer and selector types only
+	// NameForm: 0 = a name of the pool; k > 0 = goAltFieldNames[k-1] (non-ASCII, blank, one letter, very long)
+	NameForm int
 }
 
 type stmtSpec struct {
-	Kind int // 0 call pkg.F, 1 call on receiver/param, 2 defer, 3 assign from call, 4 plain assign, 5 plain call, 6 var decl, 7 incdec, 8 call on a local variable assigned earlier
+	// Kind: 0 call pkg.F, 1 call on receiver/param, 2 defer, 3 assign from call, 4 plain assign, 5 plain call, 6 var decl, 7 incdec,
+	// 8 call on a local variable assigned earlier; second round: 9 `a, b := pkg.Two()`, 10 assignment to a field, 11 `_ = x`,
+	// 12 `total += 2`, 13 `var e = pkg.Make()`, 14 call pkg.F with arguments of the other expression kinds
+	Kind int
 	Sel  int
 	Fn   int
 	Args []int
@@ -225,6 +251,12 @@ type funcSpec struct {
 	PtrRecv  bool // methods only
 	NoRecvNm bool // methods only: receiver without a name
 	OneLine  bool
+	// second round (zero value = the plain variant)
+	NameForm  int  // k > 0: goAltFuncNames[k-1] instead of a name of the pool
+	RecvName  int  // methods only: index into goRecvNames
+	ReturnAlt int  // k > 0: goAltReturns[k-1] instead of the return drawn above
+	NoBody    bool // top-level functions only: a declaration without body (implemented elsewhere)
+	ParenRecv bool // methods only: the receiver type in parentheses, (r (*T)) or (r (T))
 }
 
 type structSpec struct {
@@ -233,11 +265,14 @@ type structSpec struct {
 	// NameLike: 1 = the name of the previous type of the file followed by "Item" (one name is a prefix of the other),
 	// 2 = "Sub" followed by the name of the previous type (one name is a suffix of the other)
 	NameLike int
+	// NameForm: 0 Rec<n>; 1 unexported (rec<n>), 2 non-ASCII letters, 3 underscores and digits, 4 one letter, 5 very long
+	NameForm int
 }
 
 type ifaceSpec struct {
-	Methods []int
-	Params  int
+	Methods  []int
+	Params   int
+	NameForm int // as for structs
 }
 
 type goSpec struct {
@@ -254,17 +289,40 @@ type goSpec struct {
 	// SharedName: the first struct of the file is called Config, whatever the prefix: files of different
 	// directories of a project may each declare a type of that name
 	SharedName bool
+	// second round (zero values = the plain variant)
+	NoStructs   bool // the file declares interfaces and functions only
+	RawImports  bool // import paths written as raw strings (back quotes)
+	PkgTest     bool // a file named *_test.go belongs to the external test package <pkg>_test
+	DirAlt      int  // k > 0: goAltDirs[k-1] instead of the directory drawn above
+	CRLF        bool
+	BOM         bool
+	NoFinalNL   bool
+	LeadBlank   bool // blank lines before the package clause
+	DocComments bool // doc comments, trailing comments and /* */ between tokens, containing text that looks like declarations
+	Compact     bool // struct types and bodies written on one line with ;
+	LongLine    bool // one comment line of more than 65536 bytes
+	Variant     bool // type names are built from Rek / Pord instead of Rec / Port: a text of the same length under other names
+	SharedFunc  bool // the first top-level function is called Setup, whatever the prefix (packages of a project may share a function name)
 }
 
 var fieldSpecGen = rapid.Custom(func(t *rapid.T) fieldSpec {
-	return fieldSpec{Name: rapid.IntRange(0, len(goFieldName)-1).Draw(t, "fieldName"), Type: drawType(t),
+	f := fieldSpec{Name: rapid.IntRange(0, len(goFieldName)-1).Draw(t, "fieldName"), Type: drawType(t),
 		Group: rapid.IntRange(0, 5).Draw(t, "groupedName") == 5, Tag: rapid.IntRange(0, 7).Draw(t, "tag") == 7}
+	if rapid.IntRange(0, 7).Draw(t, "otherFieldName") == 7 {
+		f.NameForm = rapid.IntRange(1, len(goAltFieldNames)).Draw(t, "fieldNameForm")
+	}
+	return f
 })
 
 var stmtSpecGen = rapid.Custom(func(t *rapid.T) stmtSpec {
-	return stmtSpec{Kind: rapid.SampledFrom([]int{0, 0, 0, 1, 1, 2, 3, 4, 5, 6, 7, 3, 8, 8}).Draw(t, "stmtKind"),
+	st := stmtSpec{Kind: rapid.SampledFrom([]int{0, 0, 0, 1, 1, 2, 3, 4, 5, 6, 7, 3, 8, 8}).Draw(t, "stmtKind"),
 		Sel: rapid.IntRange(0, 7).Draw(t, "selector"), Fn: rapid.IntRange(0, 7).Draw(t, "function"),
 		Args: rapid.SliceOfN(rapid.IntRange(0, 7), 0, 2).Draw(t, "args")}
+	if rapid.IntRange(0, 5).Draw(t, "otherStatement") == 5 {
+		st.Kind = rapid.SampledFrom([]int{14, 14, 14, 9, 9, 10, 11, 12, 13}).Draw(t, "otherStatementKind")
+		st.Args = rapid.SliceOfN(rapid.IntRange(0, len(goAltArgs)-1), 1, 3).Draw(t, "otherArgs")
+	}
+	return st
 })
 
 var funcSpecGen = rapid.Custom(func(t *rapid.T) funcSpec {
@@ -278,6 +336,17 @@ var funcSpecGen = rapid.Custom(func(t *rapid.T) funcSpec {
 	f.PtrRecv = rapid.Bool().Draw(t, "pointerReceiver")
 	f.NoRecvNm = rapid.IntRange(0, 4).Draw(t, "receiverWithoutName") == 4
 	f.OneLine = rapid.IntRange(0, 9).Draw(t, "oneLineBody") == 9
+	if rapid.IntRange(0, 7).Draw(t, "otherFuncName") == 7 {
+		f.NameForm = rapid.IntRange(1, len(goAltFuncNames)).Draw(t, "funcNameForm")
+	}
+	if rapid.IntRange(0, 3).Draw(t, "otherReceiverName") == 3 {
+		f.RecvName = rapid.IntRange(1, len(goRecvNames)-1).Draw(t, "receiverName")
+	}
+	if rapid.IntRange(0, 9).Draw(t, "otherReturn") == 9 {
+		f.ReturnAlt = rapid.IntRange(1, len(goAltReturns)).Draw(t, "returnForm")
+	}
+	f.NoBody = rapid.IntRange(0, 15).Draw(t, "declarationWithoutBody") == 15
+	f.ParenRecv = rapid.IntRange(0, 15).Draw(t, "receiverTypeInParentheses") == 15
 	return f
 })
 
@@ -289,6 +358,9 @@ var structSpecGen = rapid.Custom(func(t *rapid.T) structSpec {
 	if rapid.IntRange(0, 3).Draw(t, "nameLikePrevious") == 3 {
 		ss.NameLike = rapid.IntRange(1, 2).Draw(t, "nameLikeForm")
 	}
+	if rapid.IntRange(0, 3).Draw(t, "otherTypeName") == 3 {
+		ss.NameForm = rapid.IntRange(1, 5).Draw(t, "typeNameForm")
+	}
 	return ss
 })
 
@@ -296,6 +368,9 @@ var ifaceSpecGen = rapid.Custom(func(t *rapid.T) ifaceSpec {
 	is := ifaceSpec{Methods: rapid.SliceOfN(rapid.IntRange(0, 6), 1, 3).Draw(t, "ifaceMethods"), Params: rapid.IntRange(0, 2).Draw(t, "ifaceParams")}
 	if rapid.IntRange(0, 7).Draw(t, "emptyInterface") == 7 {
 		is.Methods = nil // type P interface{}: listed once, with an empty method set
+	}
+	if rapid.IntRange(0, 3).Draw(t, "otherTypeName") == 3 {
+		is.NameForm = rapid.IntRange(1, 5).Draw(t, "typeNameForm")
 	}
 	return is
 })
@@ -315,6 +390,46 @@ func drawGoSpec(t *rapid.T) goSpec {
 	}
 	g.Comments = rapid.IntRange(0, 3).Draw(t, "comments") == 3
 	g.SharedName = rapid.IntRange(0, 2).Draw(t, "sharedTypeName") == 2
+	// second round: every new shape behind its own draw
+	g.NoStructs = rapid.IntRange(0, 9).Draw(t, "noStructs") == 9
+	if rapid.IntRange(0, 11).Draw(t, "many") == 11 {
+		// past 8 / 16 elements of every list the front-end appends to
+		g.Structs = append(g.Structs, rapid.SliceOfN(structSpecGen, 1, 9).Draw(t, "moreStructs")...)
+		g.Ifaces = append(g.Ifaces, rapid.SliceOfN(ifaceSpecGen, 0, 4).Draw(t, "moreInterfaces")...)
+		g.Funcs = append(g.Funcs, rapid.SliceOfN(funcSpecGen, 0, 9).Draw(t, "moreFunctions")...)
+		g.Imports = append(g.Imports, rapid.SliceOfN(rapid.IntRange(0, len(goImports)-1), 0, 14).Draw(t, "moreImports")...)
+		s0 := &g.Structs[0]
+		s0.Fields = append(s0.Fields, rapid.SliceOfN(fieldSpecGen, 0, 14).Draw(t, "moreFields")...)
+		s0.Methods = append(s0.Methods, rapid.SliceOfN(funcSpecGen, 0, 14).Draw(t, "moreMethods")...)
+		var f0 *funcSpec
+		if len(s0.Methods) > 0 {
+			f0 = &s0.Methods[0]
+		} else if len(g.Funcs) > 0 {
+			f0 = &g.Funcs[0]
+		}
+		if f0 != nil {
+			f0.Params = append(f0.Params, rapid.SliceOfN(fieldSpecGen, 0, 8).Draw(t, "moreParams")...)
+			f0.Stmts = append(f0.Stmts, rapid.SliceOfN(stmtSpecGen, 0, 30).Draw(t, "moreStatements")...)
+		}
+		if len(g.Ifaces) > 0 && len(g.Ifaces[0].Methods) > 0 {
+			g.Ifaces[0].Methods = append(g.Ifaces[0].Methods, rapid.SliceOfN(rapid.IntRange(0, 6), 0, 12).Draw(t, "moreInterfaceMethods")...)
+		}
+	}
+	g.SharedFunc = rapid.IntRange(0, 3).Draw(t, "sharedFunctionName") == 3
+	g.RawImports = rapid.IntRange(0, 7).Draw(t, "rawStringImports") == 7
+	g.PkgTest = rapid.IntRange(0, 2).Draw(t, "externalTestPackage") == 2
+	if rapid.IntRange(0, 5).Draw(t, "otherDirectory") == 5 {
+		g.DirAlt = rapid.IntRange(1, len(goAltDirs)).Draw(t, "directoryForm")
+	}
+	if rapid.IntRange(0, 3).Draw(t, "otherLayout") == 3 {
+		g.CRLF = rapid.IntRange(0, 3).Draw(t, "crlf") == 3
+		g.BOM = rapid.IntRange(0, 3).Draw(t, "byteOrderMark") == 3
+		g.NoFinalNL = rapid.IntRange(0, 3).Draw(t, "noFinalNewline") == 3
+		g.LeadBlank = rapid.IntRange(0, 3).Draw(t, "leadingBlankLines") == 3
+		g.DocComments = rapid.IntRange(0, 1).Draw(t, "docComments") == 1
+		g.Compact = rapid.IntRange(0, 2).Draw(t, "compact") == 2
+		g.LongLine = rapid.IntRange(0, 9).Draw(t, "veryLongLine") == 9
+	}
 	return g
 }
 
@@ -328,12 +443,26 @@ func (n *goNames) next(base string) string {
 	return fmt.Sprintf("%s%s%d", n.prefix, base, n.seq)
 }
 
+// goStyle: how the text of a file is laid out; nothing of it changes what the file declares.
+type goStyle struct {
+	DocComments bool
+	Compact     bool
+}
+
 // renderFunc renders one function or method and records its ground truth.
-func renderFunc(fs funcSpec, name, recvType string, structNames []string, feats map[string]bool) (string, GoFunc) {
+func renderFunc(fs funcSpec, name, recvType string, structNames []string, feats map[string]bool, style goStyle) (string, GoFunc) {
 	gf := GoFunc{Name: name, Recv: recvType}
 	var b strings.Builder
-	b.WriteString("func ")
+	between := func(text string) string { // a comment between two tokens
+		if style.DocComments {
+			feats["comment_between_tokens"] = true
+			return "/* " + text + " */ "
+		}
+		return ""
+	}
+	b.WriteString("func " + between("func fake()"))
 	recvName := ""
+	used := map[string]bool{"r": true}
 	if recvType != "" {
 		star := ""
 		if fs.PtrRecv {
@@ -342,50 +471,78 @@ func renderFunc(fs funcSpec, name, recvType string, structNames []string, feats 
 		} else {
 			feats["value_receiver"] = true
 		}
-		if fs.NoRecvNm {
-			b.WriteString("(" + star + recvType + ") ")
-		} else {
-			recvName = "r"
-			b.WriteString("(r " + star + recvType + ") ")
+		rtype := star + recvType
+		if fs.ParenRecv && !pbt.Excluded("go_parenthesised_receiver") {
+			rtype = "(" + rtype + ")"
+			feats["receiver_type_in_parentheses"] = true
 		}
+		if fs.NoRecvNm {
+			b.WriteString("(" + rtype + ") ")
+		} else {
+			recvName = goRecvNames[fs.RecvName%len(goRecvNames)]
+			if recvName != "r" {
+				feats["receiver_named_other_than_r"] = true
+			}
+			used[recvName] = true
+			b.WriteString("(" + recvName + " " + rtype + ") ")
+			if recvName == "_" {
+				recvName = "" // the blank receiver cannot be called on
+			}
+		}
+		b.WriteString(between("type Fake struct{}"))
 	}
 	b.WriteString(name + "(")
 	// parameters
 	var paramNames []string
-	used := map[string]bool{"r": true}
 	var parts []string
+	paramName := func(ps fieldSpec) string {
+		pname := goParamName[ps.Name%len(goParamName)]
+		if ps.NameForm > 0 {
+			pname = goAltFieldNames[(ps.NameForm-1)%len(goAltFieldNames)]
+			feats["parameter_name:"+nameClass(pname)] = true
+		}
+		for used[pname] && pname != "_" { // the blank name may be used any number of times
+			pname += "x"
+		}
+		used[pname] = true
+		return pname
+	}
 	for i := 0; i < len(fs.Params); i++ {
 		ps := fs.Params[i]
 		text, tt, tv := renderType(ps.Type, structNames)
+		if ps.Type.Kind == 5 {
+			feats["type_interface{}"] = true
+		}
 		if fs.Unnamed {
 			parts = append(parts, text)
 			gf.Params = append(gf.Params, Prop{Name: "", TypeType: tt, TypeValue: tv})
 			continue
 		}
-		pname := goParamName[ps.Name%len(goParamName)]
-		for used[pname] {
-			pname += "x"
-		}
-		used[pname] = true
-		names := []string{pname}
+		names := []string{paramName(ps)}
 		// "a, b T": the following parameters marked Group share this type
 		for i+1 < len(fs.Params) && fs.Params[i+1].Group && !pbt.Excluded("go_grouped_names") {
 			i++
-			nn := goParamName[fs.Params[i].Name%len(goParamName)]
-			for used[nn] {
-				nn += "x"
-			}
-			used[nn] = true
-			names = append(names, nn)
+			names = append(names, paramName(fs.Params[i]))
 			feats["grouped_parameter_names"] = true
 		}
 		parts = append(parts, strings.Join(names, ", ")+" "+text)
 		for _, nn := range names {
 			gf.Params = append(gf.Params, Prop{Name: nn, TypeType: tt, TypeValue: tv})
-			paramNames = append(paramNames, nn)
+			if nn != "_" {
+				paramNames = append(paramNames, nn)
+			}
 		}
 	}
-	b.WriteString(strings.Join(parts, ", ") + ")")
+	if len(gf.Params) > 8 {
+		feats["parameters>8"] = true
+	}
+	if style.Compact && len(parts) > 1 {
+		// one parameter per line
+		b.WriteString("\n\t" + strings.Join(parts, ",\n\t") + ",\n)")
+		feats["parameters_over_several_lines"] = true
+	} else {
+		b.WriteString(strings.Join(parts, ", ") + ")")
+	}
 	switch fs.Results {
 	case 1:
 		b.WriteString(" int")
@@ -393,6 +550,11 @@ func renderFunc(fs funcSpec, name, recvType string, structNames []string, feats 
 		b.WriteString(" (int, error)")
 	case 3:
 		b.WriteString(" (n int, err error)")
+	}
+	if fs.NoBody && recvType == "" && !pbt.Excluded("go_bodyless_func") {
+		feats["function_declaration_without_body"] = true
+		b.WriteString("\n")
+		return b.String(), gf
 	}
 	b.WriteString(" {")
 	var lines []string
@@ -422,6 +584,13 @@ func renderFunc(fs funcSpec, name, recvType string, structNames []string, feats 
 		var as []string
 		for _, k := range ks {
 			as = append(as, arg(k))
+		}
+		return strings.Join(as, ", ")
+	}
+	altArgs := func(ks []int) string {
+		var as []string
+		for _, k := range ks {
+			as = append(as, goAltArgs[k%len(goAltArgs)])
 		}
 		return strings.Join(as, ", ")
 	}
@@ -480,7 +649,44 @@ func renderFunc(fs funcSpec, name, recvType string, structNames []string, feats 
 			lines = append(lines, fmt.Sprintf("var t%d int", len(lines)))
 		case 7:
 			lines = append(lines, "counter++")
+		case 9:
+			a := fmt.Sprintf("p%d", len(lines))
+			locals = append(locals, a)
+			lines = append(lines, fmt.Sprintf("%s, q%d := %s.%s(%s)", a, len(lines), goSelectors[st.Sel%len(goSelectors)], goAssignFn[st.Fn%len(goAssignFn)], altArgs(st.Args)))
+			feats["assignment_of_two_values_from_call"] = true
+		case 10:
+			tg := target(st.Sel)
+			if tg == "" {
+				tg = "state"
+			}
+			lines = append(lines, tg+".count = "+altArgs(st.Args[:1]))
+			feats["assignment_to_field"] = true
+		case 11:
+			lines = append(lines, "_ = "+altArgs(st.Args[:1]))
+			feats["other_assignment_forms"] = true
+		case 12:
+			lines = append(lines, "total += "+altArgs(st.Args[:1]))
+			feats["other_assignment_forms"] = true
+		case 13:
+			lines = append(lines, fmt.Sprintf("var e%d = %s.%s(%s)", len(lines), goSelectors[st.Sel%len(goSelectors)], goAssignFn[st.Fn%len(goAssignFn)], altArgs(st.Args)))
+			feats["var_declaration_from_call"] = true
+		case 14:
+			c := Call{Sel: goSelectors[st.Sel%len(goSelectors)], Fn: goCallNames[st.Fn%len(goCallNames)]}
+			if tg := target(st.Sel); tg != "" && st.Fn%2 == 1 {
+				c.Sel = tg
+			}
+			lines = append(lines, c.Sel+"."+c.Fn+"("+altArgs(st.Args)+")")
+			gf.Calls = append(gf.Calls, c)
+			feats["call_statement_with_other_argument_kinds"] = true
 		}
+	}
+	if len(gf.Calls) > 8 {
+		feats["call_statements>8"] = true
+	}
+	if fs.ReturnAlt > 0 {
+		fs.Return = 0
+		lines = append(lines, goAltReturns[(fs.ReturnAlt-1)%len(goAltReturns)])
+		feats["other_return_forms"] = true
 	}
 	switch fs.Return {
 	case 1:
@@ -494,7 +700,10 @@ func renderFunc(fs funcSpec, name, recvType string, structNames []string, feats 
 			lines = append(lines, "return "+paramNames[0]+"."+goReturnFn[fs.Name%len(goReturnFn)]+"()")
 		}
 	}
-	if fs.OneLine && len(lines) <= 1 {
+	if style.Compact && len(lines) > 1 {
+		b.WriteString(" " + strings.Join(lines, "; ") + " }\n")
+		feats["statements_on_one_line"] = true
+	} else if fs.OneLine && len(lines) <= 1 {
 		b.WriteString(" " + strings.Join(lines, "") + " }\n")
 	} else {
 		b.WriteString("\n")
@@ -510,14 +719,38 @@ func renderFunc(fs funcSpec, name, recvType string, structNames []string, feats 
 func renderGo(g goSpec, prefix string, fileName string) GoFile {
 	f := GoFile{Package: goPkgNames[g.Pkg%len(goPkgNames)]}
 	dir := []string{"", "pkg/stack/", "internal/app/svc/"}[g.Dir%3]
-	f.Path = dir + fileName
 	feats := map[string]bool{}
+	if g.DirAlt > 0 && strings.HasSuffix(goAltDirs[(g.DirAlt-1)%len(goAltDirs)], ".go/") && pbt.Excluded("go_directory_named_like_go_file") {
+		g.DirAlt = 0
+	}
+	if g.DirAlt > 0 {
+		dir = goAltDirs[(g.DirAlt-1)%len(goAltDirs)]
+		feats["directory:"+strings.TrimSuffix(dir, "/")] = true
+	}
+	f.Path = dir + fileName
+	if g.PkgTest && strings.HasSuffix(fileName, "_test.go") {
+		f.Package += "_test"
+		feats["external_test_package"] = true
+	}
+	style := goStyle{DocComments: g.DocComments, Compact: g.Compact}
 	names := &goNames{prefix: prefix}
 	var b strings.Builder
+	if g.LeadBlank {
+		b.WriteString("\n\n")
+		feats["leading_blank_lines"] = true
+	}
 	if g.Comments {
 		b.WriteString("// Package " + f.Package + " is generated.\n")
 	}
+	if g.DocComments {
+		b.WriteString("/*\npackage fake\n\nimport \"fake/pkg\"\n\ntype Fake struct {\n\tfake int\n}\n\nfunc (f *Fake) FakeMethod() {\n\tfake.Call()\n}\n*/\n\n")
+		feats["comments_that_look_like_declarations"] = true
+	}
 	b.WriteString("package " + f.Package + "\n\n")
+	if g.LongLine {
+		b.WriteString("// " + strings.Repeat("long line ", 7000) + "\n\n")
+		feats["line_longer_than_65536_bytes"] = true
+	}
 
 	// imports (distinct)
 	seenImp := map[int]bool{}
@@ -528,12 +761,31 @@ func renderGo(g goSpec, prefix string, fileName string) GoFile {
 			imps = append(imps, goImports[i%len(goImports)])
 		}
 	}
+	nPaths := map[string]int{}
+	for _, im := range imps {
+		nPaths[im.Path]++
+		if nPaths[im.Path] > 1 {
+			feats["one_path_imported_under_two_names"] = true
+		}
+	}
+	if len(imps) > 8 {
+		feats["imports>8"] = true
+	}
 	impLine := func(im GoImport) string {
+		q := "\""
+		if g.RawImports {
+			q = "`"
+			feats["import_path_as_raw_string"] = true
+		}
+		tail := ""
+		if g.DocComments {
+			tail = " // import \"fake/trailing\""
+		}
 		if im.Alias != "" {
 			feats["import_alias"] = true
-			return im.Alias + " \"" + im.Path + "\""
+			return im.Alias + " " + q + im.Path + q + tail
 		}
-		return "\"" + im.Path + "\""
+		return q + im.Path + q + tail
 	}
 	if len(imps) > 0 {
 		if g.GroupedImp || len(imps) > 2 {
@@ -552,9 +804,43 @@ func renderGo(g goSpec, prefix string, fileName string) GoFile {
 	f.Imports = imps
 
 	// names first, so that field types can refer to any struct of the file
+	if g.NoStructs {
+		g.Structs = nil
+		feats["file_without_struct"] = true
+	}
+	recBase, portBase := "Rec", "Port"
+	if g.Variant {
+		recBase, portBase = "Rek", "Pord"
+	}
+	usedType := map[string]bool{}
+	typeName := func(base string, form int) string {
+		name := names.next(base)
+		switch form {
+		case 1:
+			name = strings.ToLower(name[:1]) + name[1:]
+			feats["type_name:unexported"] = true
+		case 2:
+			name = prefix + map[string]string{"Rec": "Größe", "Rek": "Grösse", "Port": "Ärger", "Pord": "Äther"}[base] + fmt.Sprint(names.seq)
+			feats["type_name:non_ascii"] = true
+		case 3:
+			name = fmt.Sprintf("%s%s_%d_v2", prefix, base, names.seq)
+			feats["type_name:underscores_and_digits"] = true
+		case 4:
+			name = prefix + string(rune('T'+names.seq%7))
+			feats["type_name:one_letter"] = true
+		case 5:
+			name = prefix + base + strings.Repeat("VeryLongName", 10) + fmt.Sprint(names.seq)
+			feats["type_name:very_long"] = true
+		}
+		for usedType[name] {
+			name += fmt.Sprint(names.seq)
+		}
+		usedType[name] = true
+		return name
+	}
 	var structNames, ifaceNames []string
 	for si, ss := range g.Structs {
-		name := names.next("Rec")
+		name := typeName(recBase, ss.NameForm)
 		switch {
 		case si == 0 && g.SharedName:
 			name = "Config"
@@ -566,10 +852,19 @@ func renderGo(g goSpec, prefix string, fileName string) GoFile {
 			name = "Sub" + structNames[si-1]
 			feats["type_name_is_prefix_or_suffix_of_another"] = true
 		}
+		usedType[name] = true
 		structNames = append(structNames, name)
 	}
-	for range g.Ifaces {
-		ifaceNames = append(ifaceNames, names.next("Port"))
+	for _, is := range g.Ifaces {
+		ifaceNames = append(ifaceNames, typeName(portBase, is.NameForm))
+	}
+	if len(structNames)+len(ifaceNames) > 8 {
+		feats["type_declarations>8"] = true
+	}
+	altFuncName := func(form int) string {
+		n := goAltFuncNames[(form-1)%len(goAltFuncNames)]
+		feats["function_or_method_name:"+nameClass(n)] = true
+		return n
 	}
 
 	type decl struct {
@@ -582,58 +877,96 @@ func renderGo(g goSpec, prefix string, fileName string) GoFile {
 	for si, ss := range g.Structs {
 		st := GoStruct{Name: structNames[si]}
 		var body strings.Builder
-		body.WriteString(st.Name + " struct {\n")
+		var fieldLines []string
 		usedF := map[string]bool{}
+		fieldName := func(fs fieldSpec) string {
+			fname := goFieldName[fs.Name%len(goFieldName)]
+			if fs.NameForm > 0 {
+				fname = goAltFieldNames[(fs.NameForm-1)%len(goAltFieldNames)]
+				feats["field_name:"+nameClass(fname)] = true
+			}
+			for usedF[fname] && fname != "_" { // a struct may have any number of blank fields
+				fname += "X"
+			}
+			usedF[fname] = true
+			return fname
+		}
 		for i := 0; i < len(ss.Fields); i++ {
 			fs := ss.Fields[i]
 			text, tt, tv := renderType(fs.Type, structNames)
+			if fs.Type.Kind == 5 {
+				feats["type_interface{}"] = true
+			}
 			if fs.Embed && (fs.Type.Kind == 0 || fs.Type.Kind == 1 || fs.Type.Kind == 3) && !usedF["embedded "+tv] && tv != st.Name {
 				// an embedded field: no name in the source, the empty name in the model (as for unnamed parameters)
 				usedF["embedded "+tv] = true
-				body.WriteString("\t" + text + "\n")
+				fieldLines = append(fieldLines, text)
 				st.Fields = append(st.Fields, Prop{Name: "", TypeType: tt, TypeValue: tv})
 				feats["embedded_field"] = true
 				continue
 			}
-			fname := goFieldName[fs.Name%len(goFieldName)]
-			for usedF[fname] {
-				fname += "X"
-			}
-			usedF[fname] = true
+			fname := fieldName(fs)
 			fnames := []string{fname}
 			for i+1 < len(ss.Fields) && ss.Fields[i+1].Group && !pbt.Excluded("go_grouped_names") {
 				i++
-				nn := goFieldName[ss.Fields[i].Name%len(goFieldName)]
-				for usedF[nn] {
-					nn += "X"
-				}
-				usedF[nn] = true
-				fnames = append(fnames, nn)
+				fnames = append(fnames, fieldName(ss.Fields[i]))
 				feats["grouped_field_names"] = true
 			}
-			line := "\t" + strings.Join(fnames, ", ") + " " + text
+			line := strings.Join(fnames, ", ") + " " + text
 			if fs.Tag {
 				line += " `json:\"" + strings.ToLower(fname) + "\"`"
 				feats["struct_tag"] = true
 			}
-			body.WriteString(line + "\n")
+			fieldLines = append(fieldLines, line)
 			for _, nn := range fnames {
 				st.Fields = append(st.Fields, Prop{Name: nn, TypeType: tt, TypeValue: tv})
 			}
 		}
-		body.WriteString("}")
+		if len(st.Fields) > 8 {
+			feats["fields>8"] = true
+		}
+		if g.Compact {
+			// the whole struct type on one line
+			body.WriteString(st.Name + " struct{ " + strings.Join(fieldLines, "; ") + " }")
+			if len(fieldLines) == 0 {
+				body.Reset()
+				body.WriteString(st.Name + " struct{}")
+			}
+			feats["struct_type_on_one_line"] = true
+		} else {
+			body.WriteString(st.Name + " struct {\n")
+			for k, line := range fieldLines {
+				if g.DocComments && k%2 == 0 {
+					body.WriteString("\t// fake int; type Fake interface { M() }\n")
+				}
+				body.WriteString("\t" + line)
+				if g.DocComments && k%2 == 1 {
+					body.WriteString(" // fake.Call()")
+				}
+				body.WriteString("\n")
+			}
+			body.WriteString("}")
+		}
 		typeBodies = append(typeBodies, body.String())
 		f.Structs = append(f.Structs, st)
 		usedM := map[string]bool{}
+		nMethods := 0
 		for _, ms := range ss.Methods {
 			mname := goMethNames[ms.Name%len(goMethNames)]
+			if ms.NameForm > 0 {
+				mname = altFuncName(ms.NameForm)
+			}
 			for usedM[mname] {
 				mname += "Too"
 			}
 			usedM[mname] = true
-			text, gf := renderFunc(ms, mname, st.Name, structNames, feats)
+			text, gf := renderFunc(ms, mname, st.Name, structNames, feats, style)
 			f.Funcs = append(f.Funcs, gf)
 			decls = append(decls, decl{text: text, kind: 1})
+			nMethods++
+		}
+		if nMethods > 8 {
+			feats["methods_of_one_struct>8"] = true
 		}
 	}
 	for ii, is := range g.Ifaces {
@@ -651,6 +984,9 @@ func renderGo(g goSpec, prefix string, fileName string) GoFile {
 			body.WriteString("\t" + mname + sig + "\n")
 			it.Methods = append(it.Methods, mname)
 		}
+		if len(it.Methods) > 8 {
+			feats["interface_methods>8"] = true
+		}
 		body.WriteString("}")
 		typeBodies = append(typeBodies, body.String())
 		f.Ifaces = append(f.Ifaces, it)
@@ -667,15 +1003,26 @@ func renderGo(g goSpec, prefix string, fileName string) GoFile {
 		typeDecls = append(typeDecls, decl{text: tb.String(), kind: 0})
 	} else {
 		for _, body := range typeBodies {
-			typeDecls = append(typeDecls, decl{text: "type " + body + "\n", kind: 0})
+			doc := ""
+			if g.DocComments {
+				doc = "// type Fake struct { fake int }\n// func (f Fake) Method() {}\n"
+			}
+			typeDecls = append(typeDecls, decl{text: doc + "type " + body + "\n", kind: 0})
 		}
 	}
 	usedFn := map[string]bool{}
 	var fnDecls []decl
 	for _, fs := range g.Funcs {
 		fname := goFuncNames[fs.Name%len(goFuncNames)]
+		if fs.NameForm > 0 {
+			fname = altFuncName(fs.NameForm)
+		}
 		if fname != "main" && fname != "init" {
 			fname += prefix // unique across the files of a project; the case of the first letter is kept
+		}
+		if g.SharedFunc && len(fnDecls) == 0 {
+			fname = "Setup"
+			feats["function_name_used_in_several_files"] = true
 		}
 		for usedFn[fname] && fname != "init" { // a file may declare init any number of times
 			fname += "Two"
@@ -684,7 +1031,7 @@ func renderGo(g goSpec, prefix string, fileName string) GoFile {
 			feats["init_declared_twice"] = true
 		}
 		usedFn[fname] = true
-		text, gf := renderFunc(fs, fname, "", structNames, feats)
+		text, gf := renderFunc(fs, fname, "", structNames, feats, style)
 		f.Funcs = append(f.Funcs, gf)
 		fnDecls = append(fnDecls, decl{text: text, kind: 2})
 	}
@@ -709,6 +1056,30 @@ func renderGo(g goSpec, prefix string, fileName string) GoFile {
 		b.WriteString(d.text + "\n")
 	}
 	f.Code = b.String()
+	if g.NoFinalNL {
+		f.Code = strings.TrimRight(f.Code, "\n")
+		feats["no_final_newline"] = true
+	}
+	if g.CRLF {
+		f.Code = strings.ReplaceAll(f.Code, "\n", "\r\n")
+		feats["crlf"] = true
+	}
+	if g.BOM {
+		f.Code = "\ufeff" + f.Code
+		feats["byte_order_mark"] = true
+	}
+	if g.Variant {
+		feats["same_path_other_names"] = true
+	}
+	nFree := 0
+	for _, fn := range f.Funcs {
+		if fn.Recv == "" {
+			nFree++
+		}
+	}
+	if nFree > 8 {
+		feats["top_level_functions>8"] = true
+	}
 	if len(f.Structs)+len(f.Ifaces) >= 2 {
 		feats["type_declarations>=2"] = true
 	}
@@ -718,6 +1089,23 @@ func renderGo(g goSpec, prefix string, fileName string) GoFile {
 	sort.Strings(f.Features)
 	mustParseGo(f.Path, f.Code)
 	return f
+}
+
+// nameClass says which family of the second round's names a name belongs to.
+func nameClass(n string) string {
+	switch {
+	case n == "_":
+		return "blank"
+	case len([]rune(n)) == 1:
+		return "one_letter"
+	case len(n) > 60:
+		return "very_long"
+	case len(n) != len([]rune(n)):
+		return "non_ascii"
+	case strings.Contains(n, "_"):
+		return "with_underscore"
+	}
+	return "word_of_the_model" // Struct, method, Default, Type, ...
 }
 
 // every generated Go text must be accepted by go/parser; anything else is a bug of this generator
